@@ -207,6 +207,9 @@ T_CELLS = {
 }
 
 
+T_CELL_TAGS = {"H1": {"iter_nab"}, "G1": {"iter_nab"}, "H2": {"iter_table", "iter_wrap"}, "G3": {"iter_table", "iter_wrap"}, "G2": {"iter_range", "iter_wrap"}}
+
+
 def t_cell_discs(repr_, shape, which):
     lo, hi = dom_min(repr_), dom_max(repr_)
     if lo == -(1 << 63):
@@ -232,7 +235,7 @@ def t_cells(reprs=None):
                 ren = {1: "two words", len(ds) - 1: "q\"\\{}"} if which == "b" else None
                 vs = mk_variants(ds, order="sorted" if which == "a" else "reversed", renames=ren, implicit_ok=False)
                 out.append(EnumSpec("t_%s_%s_%s" % (r, cell, which), r, vs, list(feats), ident="En" if which == "a" else "Other",
-                                    tags={"T", cell, shape, which}))
+                                    tags={"T", cell, shape, which} | T_CELL_TAGS[cell]))
     return out
 
 
